@@ -360,6 +360,41 @@ func (fc *FC) Recurrence(r *RF) (init, next *RF) {
 			}
 		}
 		walk(r)
+		if len(carried) > 1 {
+			// quantities carried by an earlier or an enclosing loop are fixed while the latest,
+			// innermost loop runs: the recurrence is the one of that loop's quantity — provided
+			// there is exactly one whose loop header every other one's header dominates
+			hdrOf := func(a *Atom) *ssa.BasicBlock {
+				if ph, ok := fc.X.phiOf[a.ID]; ok && fc.X.phiFC[a.ID] == fc {
+					return ph.Block()
+				}
+				return nil
+			}
+			var last []*Atom
+			for _, c := range carried {
+				hc := hdrOf(c)
+				if hc == nil {
+					last = nil
+					break
+				}
+				isLast := true
+				for _, o := range carried {
+					ho := hdrOf(o)
+					if o == c {
+						continue
+					}
+					if ho == nil || ho == hc || !fc.Ctx.Dominates(ho, hc) {
+						isLast = false
+					}
+				}
+				if isLast {
+					last = append(last, c)
+				}
+			}
+			if len(last) == 1 {
+				carried = last
+			}
+		}
 		if len(carried) != 1 {
 			anchorFail("not a loop-carried value: %s", clip(r.String(), 200))
 		}
